@@ -361,6 +361,13 @@ func registerHarnessIntrinsics() {
 	reg("vEnvListeners", func(in *Interp, fr *frame, args []Value) (Value, bool) {
 		return Int(len(in.env.items)), true
 	})
+	reg("vLoopInit", func(in *Interp, fr *frame, args []Value) (Value, bool) {
+		if in.loopInit == nil {
+			in.loopInit = map[string]Value{}
+		}
+		in.loopInit[concName(args[0])+":"+concName(args[1])] = args[2]
+		return nil, true
+	})
 	reg("vEnvListenAddr", func(in *Interp, fr *frame, args []Value) (Value, bool) {
 		// the address the most recent successful net.Listen was given
 		if n := len(in.env.items); n > 0 {
